@@ -357,6 +357,7 @@ func checkC13(p *core.Program, r *core.Report) {
 	r.Rule("R5", "numbers: XNumber.Render is decimal.String; the only gate of newXNumberFromString, decimalRegexp, accepts every plain decimal (language inclusion of -?[0-9]+(\\.[0-9]+)? decided on automata); ToXNumber's text arm goes through it")
 	r.Rule("R6", "JSON: jsonTypeToXValue has an arm for each of the 6 value types a valid document contains and builds the matching X type; no regexp gate narrower than the JSON number grammar stands between a JSON number and its XNumber; decimals marshal without quotes; every XValue type has its own MarshalJSON; array and object marshalers emit every element")
 	r.Rule("R7", "`=` and `!=` compare canonical renderings: both are built by textualBinary, which converts each operand with ToXText (Render); NotEqual is the negation of the same XText.Equals call; XText.Equals is string equality")
+	r.Rule("R8", "a year is read as two-digit only when two digits were matched: every place in envs that adds a century (1900 / 2000) to a parsed year is guarded — in the function or at every call site of the helper it sits in — by a test on the length of the matched text, not on the year's value (years 1–99 are rendered with four digits, 0045, and must read back as 45)")
 	r.Assumption("Go's time.Parse/Format, shopspring/decimal's String/NewFromString and buger/jsonparser are taken as correct; DST folds, UTC offsets with a seconds part, and locales whose am/pm markers are not am/pm are outside what is decided")
 
 	envsPk := p.Pkg("envs")
@@ -379,6 +380,98 @@ func checkC13(p *core.Program, r *core.Report) {
 	c13Numbers(p, r, typesSSA)
 	c13JSON(p, r, typesSSA)
 	c13Equal(p, r)
+	c13CenturyPivot(p, r)
+}
+
+// ---------------------------------------------------------------------------------------------- R8
+
+func c13CenturyPivot(p *core.Program, r *core.Report) {
+	isWidthTest := func(ce core.CondEdge) bool {
+		b, ok := ce.Cond.(*ssa.BinOp)
+		if !ok {
+			return false
+		}
+		for _, pair := range [][2]ssa.Value{{b.X, b.Y}, {b.Y, b.X}} {
+			arg, isLen := isLenCall(pair[0])
+			if !isLen {
+				continue
+			}
+			if bt, isB := arg.Type().Underlying().(*types.Basic); !isB || bt.Info()&types.IsString == 0 {
+				continue
+			}
+			if _, isC := pair[1].(*ssa.Const); isC {
+				return true
+			}
+		}
+		return false
+	}
+	var guarded func(b *ssa.BasicBlock, depth int) bool
+	guarded = func(b *ssa.BasicBlock, depth int) bool {
+		for _, ce := range core.ControllingConds(b) {
+			if isWidthTest(ce) {
+				return true
+			}
+		}
+		if depth >= 2 {
+			return false
+		}
+		// the pivot sits in a helper: every call of the helper has to be guarded
+		sites := p.CallsTo(b.Parent())
+		if len(sites) == 0 {
+			return false
+		}
+		for _, cs := range sites {
+			if !guarded(cs.Instr.Block(), depth+1) {
+				return false
+			}
+		}
+		return true
+	}
+	n := 0
+	per := map[string]int{}
+	for _, fn := range p.ModuleFunctions() {
+		if core.RelPkg(core.FuncPkgPath(fn)) != "envs" || p.IsTestFile(fn.Pos()) || fn.Synthetic != "" {
+			continue
+		}
+		core.EachInstr(fn, false, func(_ *ssa.Function, in ssa.Instruction) {
+			bo, ok := in.(*ssa.BinOp)
+			if !ok || bo.Op != token.ADD {
+				return
+			}
+			century := int64(0)
+			for _, o := range []ssa.Value{bo.X, bo.Y} {
+				if c, isC := core.ConstInt(o); isC && (c == 1900 || c == 2000) {
+					century = c
+				}
+				// the century chosen into a local first: a phi of the two constants
+				if ph, isPhi := o.(*ssa.Phi); isPhi && len(ph.Edges) > 0 {
+					all := true
+					for _, e := range ph.Edges {
+						if c, isC := core.ConstInt(e); !isC || (c != 1900 && c != 2000) {
+							all = false
+						}
+					}
+					if all {
+						century = 1900
+					}
+				}
+			}
+			if century == 0 {
+				return
+			}
+			n++
+			k := fmt.Sprintf("%s/+%d", core.FuncName(fn), century)
+			per[k]++
+			key := k
+			if per[k] > 1 {
+				key = fmt.Sprintf("%s#%d", k, per[k])
+			}
+			r.Check(guarded(bo.Block(), 0), "R8", key+"/only-for-two-matched-digits", p.Pos(bo.Pos()), "guarded by the length of the matched text",
+				fmt.Sprintf("the century %d is added to a parsed year without a test on how many digits were matched: a year below 100 written with four digits (14-03-0045, which is how such a date is rendered) reads back as %d", century, century+45))
+		})
+	}
+	r.Count("century_pivot_sites", n)
+	r.Require("century_pivot_sites", n, 1)
 }
 
 func constsOfType(pk *packages.Package, typeName string) map[string]string {
@@ -1190,6 +1283,63 @@ func c13Numbers(p *core.Program, r *core.Report, typesPkg *ssa.Package) {
 		}
 		r.Check(uses, "R5", "ToXNumber/text-arm", p.Pos(f.Pos()), "text converts through newXNumberFromString", "ToXNumber no longer converts text through newXNumberFromString")
 	}
+	c13NoFloatDetour(p, r)
+}
+
+// c13FloatDetours: calls that push a number through binary floating point (at most 15–17 significant digits, no 1e400).
+var c13FloatDetours = map[string]string{
+	"github.com/shopspring/decimal.NewFromFloat":             "decimal from float64",
+	"github.com/shopspring/decimal.NewFromFloat32":           "decimal from float32",
+	"github.com/shopspring/decimal.NewFromFloatWithExponent": "decimal from float64",
+	"github.com/shopspring/decimal.Decimal.Float64":          "decimal to float64",
+	"github.com/shopspring/decimal.Decimal.InexactFloat64":   "decimal to float64",
+	"strconv.ParseFloat":                                      "text to float64",
+	"github.com/buger/jsonparser.ParseFloat":                 "JSON number to float64",
+	"github.com/buger/jsonparser.GetFloat":                   "JSON number to float64",
+	"encoding/json.Number.Float64":                           "JSON number to float64",
+}
+
+// c13NoFloatDetour: in the packages that read, convert and write values (excellent/types, excellent/functions,
+// excellent/operators, envs, flows, utils/jsonx) no number takes a detour through float64: every call of a float
+// conversion has a constant operand. A float64 keeps 15–17 significant digits, so 12345678901234567890 read from a
+// JSON document or a stored field would come back as 12345678901234567000.
+func c13NoFloatDetour(p *core.Program, r *core.Report) {
+	scope := map[string]bool{"excellent/types": true, "excellent/functions": true, "excellent/operators": true, "excellent": true, "envs": true, "flows": true, "utils/jsonx": true}
+	nDecimal, per := 0, map[string]int{}
+	for _, fn := range p.ModuleFunctions() {
+		if !scope[core.RelPkg(core.FuncPkgPath(fn))] || p.IsTestFile(fn.Pos()) || fn.Synthetic != "" {
+			continue
+		}
+		for _, cs := range core.Calls(fn, false) {
+			o := core.CalleeObj(cs.Common())
+			if o == nil {
+				continue
+			}
+			name := core.ObjName(o)
+			if strings.HasPrefix(name, "github.com/shopspring/decimal.") {
+				nDecimal++
+			}
+			what, isDetour := c13FloatDetours[name]
+			if !isDetour {
+				continue
+			}
+			allConst := len(cs.Common().Args) > 0
+			for _, a := range cs.Common().Args {
+				if _, isC := core.StripConv(a).(*ssa.Const); !isC {
+					allConst = false
+				}
+			}
+			k := core.FuncName(fn) + "->" + name
+			per[k]++
+			key := "no-float-detour/" + k
+			if per[k] > 1 {
+				key = fmt.Sprintf("%s#%d", key, per[k])
+			}
+			r.Check(allConst, "R5", key, p.Pos(cs.Pos()), what+" of a constant", "a value goes "+what+" in "+core.FuncName(fn)+": binary floating point keeps 15–17 significant digits and no exponent beyond ±308, so a number with more digits (12345678901234567890, 0.1234567890123456789, 1e400) does not survive its stored text or JSON form")
+		}
+	}
+	r.Count("decimal_api_call_sites", nDecimal)
+	r.Require("decimal_api_call_sites", nDecimal, 20)
 }
 
 // ---------------------------------------------------------------------------------------------- R6
